@@ -1,6 +1,6 @@
 (* C12 - the VM is total, bounded and memory-safe on every script.
    Statements only; every proof is [exact lemma]. *)
-From NG Require Import VM.Model VM.Total VM.LimitsData VM.Limits VM.Reach.
+From NG Require Import VM.Model VM.Total VM.LimitsData VM.Limits VM.Reach VM.Static VM.StaticProofs.
 Open Scope Z_scope.
 
 (* the premise on the price table generated from pkg/core/fee: every opcode costs at least one unit, except the
@@ -28,10 +28,10 @@ Print Assumptions C12_gas_bound.
    256 bits, byte strings and buffers <= MaxItemSize (everywhere: stacks, slots, heap, pending exception),
    <= MaxInvocationStackSize contexts, <= MaxTryNestingDepth try blocks per context *)
 Theorem C12_step_limits : forall s,
-  state_ok s ->
+  limits_ok s ->
   match step s with
-  | Running s' => state_ok s' /\ s_refs s' <= MaxStackSize
-  | Halted s' => state_ok s' /\ s_refs s' <= MaxStackSize
+  | Running s' => limits_ok s' /\ s_refs s' <= MaxStackSize
+  | Halted s' => limits_ok s' /\ s_refs s' <= MaxStackSize
   | Faulted _ => True
   end.
 Proof. exact step_limits. Qed.
@@ -39,19 +39,37 @@ Print Assumptions C12_step_limits.
 
 Theorem C12_run_limits : forall n prog sid base limit,
   match run n (init_state prog sid base limit) with
-  | Running s' => state_ok s'
-  | Halted s' => state_ok s' /\ s_refs s' <= MaxStackSize
+  | Running s' => limits_ok s'
+  | Halted s' => limits_ok s' /\ s_refs s' <= MaxStackSize
   | Faulted _ => True
   end.
 Proof. exact run_limits_init. Qed.
 Print Assumptions C12_run_limits.
 
-(* what state_ok says, spelled out on the executing context *)
-Theorem C12_state_ok_meaning : forall s, state_ok s ->
+(* what limits_ok says, spelled out on the executing context, on integers, byte strings and buffers *)
+Theorem C12_limits_ok_meaning : forall s, limits_ok s ->
   depth s <= MaxInvocationStackSize /\ zlen (f_try (s_fr s)) <= MaxTryNestingDepth /\
-  Forall item_ok (final_stack s) /\ heap_ok (s_heap s).
-Proof. exact state_ok_meaning. Qed.
-Print Assumptions C12_state_ok_meaning.
+  Forall size_ok (final_stack s) /\ heap_size_ok (s_heap s).
+Proof. exact limits_ok_meaning. Qed.
+Print Assumptions C12_limits_ok_meaning.
+Theorem C12_size_ok_int : forall z, size_ok (IInt z) <-> - 2 ^ 255 <= z < 2 ^ 255.
+Proof. exact size_ok_int. Qed.
+Print Assumptions C12_size_ok_int.
+Theorem C12_size_ok_bytes : forall bs, size_ok (IBytes bs) <-> zlen bs <= MaxItemSize.
+Proof. exact size_ok_bytes. Qed.
+Print Assumptions C12_size_ok_bytes.
+Theorem C12_size_ok_buffer : forall h l bs, heap_size_ok h -> hget h l = Some (CBuf bs) -> zlen bs <= MaxItemSize.
+Proof. exact heap_size_ok_buf. Qed.
+Print Assumptions C12_size_ok_buffer.
+
+(* the static script check (model of scparser.IsScriptCorrect, tied to it by the correspondence): a script that passes it
+   never stands at an offset that is not one of the instruction boundaries the check found, or the end of the script *)
+Theorem C12_static_check_sound : forall prog sid base limit n s,
+  script_correct prog = true ->
+  run n (init_state prog sid base limit) = Running s ->
+  In (f_ip (s_fr s)) (boundaries prog) \/ f_ip (s_fr s) = zlen prog.
+Proof. exact static_check_sound. Qed.
+Print Assumptions C12_static_check_sound.
 
 (* binary fuel = unary fuel (the correspondence runs use runp) *)
 Theorem C12_runp_is_run : forall p s, runp p s = run (Pos.to_nat p) s.
@@ -65,12 +83,19 @@ Definition C12_refs_never_undercount_statement : Prop :=
     (run n (init_state prog sid base limit) = Running s \/ run n (init_state prog sid base limit) = Halted s) ->
     reach_count s <= s_refs s.
 
+(* non-vacuity of the static check: PUSHA +7 / CALLA into a subroutine passes; the same with the pointer aimed into the
+   middle of the PUSHA operand does not *)
+Example C12_static_examples :
+  script_correct [10; 7; 0; 0; 0; 54; 64; 17; 64] = true /\ boundaries [10; 7; 0; 0; 0; 54; 64; 17; 64] = [8; 7; 6; 5; 0] /\
+  script_correct [10; 2; 0; 0; 0; 54; 64; 17; 64] = false.
+Proof. vm_compute. repeat split; reflexivity. Qed.
+
 (* non-vacuity: a looping script under a limit terminates by FAULT; a recursive one by the invocation limit *)
 Example C12_examples :
   gas_inv (init_state [34; 0] 1%N 1 1000) /\
   run 600 (init_state [34; 0] 1%N 1 1000) = Faulted 1002 /\
   (exists g, run 2000 (init_state [52; 0] 1%N 1 10000000) = Faulted g) /\
-  match run 10 (init_state [18; 19; 158] 1%N 1 1000) with Halted s => state_ok s /\ reach_count s = 1 /\ s_refs s = 1 | _ => False end.
+  match run 10 (init_state [18; 19; 158] 1%N 1 1000) with Halted s => limits_ok s /\ reach_count s = 1 /\ s_refs s = 1 | _ => False end.
 Proof.
   split; [repeat split; vm_compute; congruence|]. split; [vm_compute; reflexivity|].
   split; [eexists; vm_compute; reflexivity|].
